@@ -88,6 +88,15 @@ func c15Decl(r *Rand, kind string) *Decl {
 			d.Root.Subs[2].Name, d.Root.Subs[3].Name = "c0a", "c0b"
 		}
 	}
+	if kind == "help-full" || kind == "man-page" || kind == "write-after-documents" {
+		// an alias that the program added although the declaration already had it (and two more): listed as given
+		for _, cm := range d.Cmds[1:] {
+			if r.Bool() {
+				a := fmt.Sprintf("dup%d", cm.ID)
+				cm.Aliases = append(cm.Aliases, a, a+"b", a, a+"c", a+"b")
+			}
+		}
+	}
 	if kind == "completion-list" || kind == "help-full" || kind == "required-list" {
 		// names that differ only in letter case (an ordering that ignores case would leave them to chance)
 		var shortOnly, longs []*Opt
